@@ -28,13 +28,13 @@ CHECKS = {
     "C18": {"engine": "pool", "variants": ["A"], "quick": 5000, "thorough": 60000, "quick_s": 70, "thorough_s": 560,
             "real": ["src/token.c pool functions", "src/object_pool.c", "the whole parser/writer (conversions and parses)", "glibc malloc under ASan"],
             "stub": ["slab size (hook H2)", "DString starting capacity (hook H1)", "realloc placement", "clock and libc rand() (simulated, per operation)"],
-            "expect_probes": ["inspect_after_inner_drain", "slab_crossed", "reinit_after_free", "depth_ge_3", "nested_init"],
+            "expect_probes": ["inspect_after_inner_drain", "slab_crossed", "reinit_after_free", "depth_ge_3", "nested_init", "cli_main_runs", "fresh_heap_garbage"],
             "sim_time": "clock values are per-operation environment only; no timers exist"},
     "C05": {"engine": "hist", "variants": ["A", "B"], "quick": 5000, "thorough": 120000, "quick_s": 80, "thorough_s": 570,
             "real": ["the whole library incl. CLI main() driven in-process", "glibc stdio over fopencookie"],
             "stub": ["time()/clock() (simulated clock, distinct per operation)", "rand()/srand() (simulated libc PRNG with srand semantics)", "file system under /sim (in-memory)",
                      "realloc placement", "DString starting capacity (H1)", "pool slab size (H2)"],
-            "expect_probes": ["obfuscation_draws_before_op", "engine_reused", "parse_substring_nonzero_start", "pool_depth_gt_1", "has_metadata_on_parsed_engine", "pool_cycled"],
+            "expect_probes": ["obfuscation_draws_before_op", "engine_reused", "parse_substring_nonzero_start", "pool_depth_gt_1", "has_metadata_on_parsed_engine", "pool_cycled", "engine_text_replaced", "engine_metadata_updated", "op_with_opml_inplace_replacement", "fresh_heap_garbage"],
             "sim_time": "each operation sees its own simulated clock value in [1980, 2107]; span reported under seam_events.time_calls"},
     "C11": {"engine": "meta", "variants": ["A", "B"], "quick": 16000, "thorough": 600000, "quick_s": 70, "thorough_s": 560,
             "real": ["metadata API of all three families (src/mmd.c)", "tokenizer/parser/writer reached through it", "DString"],
@@ -45,14 +45,14 @@ CHECKS = {
     "C13": {"engine": "incl", "variants": ["A", "B"], "quick": 12000, "thorough": 400000, "quick_s": 70, "thorough_s": 560,
             "real": ["src/transclude.c", "src/file.c (scan_file, path helpers)", "metadata detection in src/mmd.c", "DString", "glibc stdio over fopencookie"],
             "stub": ["file system under /sim (in-memory, POSIX path normalisation, PATH_MAX/NAME_MAX)", "realpath()", "realloc placement", "DString starting capacity (H1)", "stdio read chunk size"],
-            "expect_probes": ["guard_hit", "depth_ge_3", "insert_caused_realloc_move", "open_fail", "read_error", "file_changed_between_opens", "directory_in_place_of_file"],
+            "expect_probes": ["guard_hit", "depth_ge_3", "insert_caused_realloc_move", "open_fail", "read_error", "file_changed_between_opens", "directory_in_place_of_file", "cli_runs", "cli_batch_files", "cli_converting_format"],
             "sim_time": "not meaningful: no clock on these paths; liveness is counted in fopen calls, delivered bytes and executed basic blocks"},
     "C17": {"engine": "thr", "variants": ["T"], "quick": 1500, "thorough": 60000, "quick_s": 80, "thorough_s": 570,
             "real": ["the whole library compiled with -fsanitize=thread instrumentation and DISABLE_OBJECT_POOL, in libmmd_t.so", "real pthreads, real glibc malloc (per-thread arenas)"],
             "stub": ["thread scheduling (seeded cooperative scheduler: exactly one thread runs, baton passed at yield points)", "the TSan runtime (replaced by the simulator's own callbacks and happens-before detector)",
                      "rand()/srand()/time()/clock() (simulated, yield points)", "localtime() (passes through; its static buffer is recorded as shared state)"],
             "extra_args": ["--shrink-budget", "120", "--child-timeout", "60"],
-            "expect_probes": ["preemptions", "yield_points", "preempt_in_html_export", "preempt_in_zip"],
+            "expect_probes": ["preemptions", "yield_points", "preempt_in_html_export", "preempt_in_zip", "ops_META", "ops_CRITIC", "ops_TRANSCLUDE", "ops_IMPORT"],
             "state_measure": "distinct schedule hashes: FNV over the sequence (thread chosen, code site) at every hand-over",
             "sim_time": "not meaningful: the clock is constant during a run; schedules are counted in yield points"},
     "C09": {"engine": "pkg", "variants": ["A", "B"], "quick": 5000, "thorough": 150000, "quick_s": 80, "thorough_s": 570,
@@ -60,7 +60,7 @@ CHECKS = {
             "stub": ["asset directory (in-memory FS with per-path faults)", "time()/localtime clock (simulated, [1980, 2107], jumps between calls)", "rand()/srand() (simulated libc PRNG; library-side srand honoured)",
                      "DString starting capacity (H1)", "pool slab size (H2)", "stdio read chunk size"],
             "expect_probes": ["asset_missing_or_unopenable", "asset_empty_or_unreadable", "directory_null_with_images", "srand_between_uuid_draws_possible", "clock_before_2000",
-                              "open_fail", "read_error", "file_changed_between_opens", "directory_in_place_of_file", "empty_file", "clock_jump_inside_op"],
+                              "open_fail", "read_error", "file_changed_between_opens", "directory_in_place_of_file", "empty_file", "clock_jump_inside_op", "other_api_family_identical", "asset_never_opened_by_library", "cli_packages"],
             "assumptions": ["Python zipfile/zlib and expat as the independent archive and XML readers (tools/pkgcheck.py)"],
             "sim_time": "each package is built at its own simulated instant in [1980-01-01, 2107-12-31], optionally jumping by up to +-100000 s between two time() calls of one operation"},
 }
